@@ -228,6 +228,16 @@ func (fx *Fx) evalIdent(st *State, x *ast.Ident, spec bool) Place {
 				return Place{loc: &Loc{kind: locVar, obj: o, T: o.Type()}}
 			}
 		}
+		// a local that has gone out of scope (step clauses talk about the iteration's variables): the latest declared one
+		var best types.Object
+		for o := range st.env {
+			if o.Name() == x.Name && (best == nil || o.Pos() > best.Pos()) {
+				best = o
+			}
+		}
+		if best != nil {
+			return Place{loc: &Loc{kind: locVar, obj: best, T: best.Type()}}
+		}
 		if x.Name == "iterk" && st.iterK != "" {
 			return Place{val: Val{T: types.Typ[types.Int], S: SInt, X: st.iterK}}
 		}
@@ -499,9 +509,7 @@ func (fx *Fx) evalSlice(st *State, x *ast.SliceExpr, spec bool) Val {
 			}
 		}
 	}
-	if x.Max != nil {
-		fx.assumed["capacity of slices is not modelled (three-index slices are read as two-index slices)"] = true
-	}
+
 	if !spec && fx.inSpec == 0 {
 		g := and(app("<=", "0", lo), app("<=", lo, hi), app("<=", hi, ln))
 		fx.oblige(st, "bounds", exprText(x), g, "")
@@ -513,8 +521,18 @@ func (fx *Fx) evalSlice(st *State, x *ast.SliceExpr, spec bool) Val {
 		}
 		return Val{T: b.T, S: SStr, X: app("ssub", b.X, lo, hi)}
 	}
-	if !isArr && lo == "0" && hi == ln {
+	if !isArr && lo == "0" && hi == ln && x.Max == nil {
 		return b
+	}
+	if !isArr && lo == "0" && hi == ln && x.Max != nil {
+		// s[:len(s):max]: same elements and backing array, capacity limited
+		mx := fx.eval(st, x.Max, spec).X
+		if !spec && fx.inSpec == 0 {
+			g := and(app("<=", hi, mx), app("<=", mx, app("cap_"+b.S, b.X)))
+			fx.oblige(st, "bounds", exprText(x)+":max", g, "")
+			st.assume(g)
+		}
+		return Val{T: b.T, S: b.S, X: app("mk_"+b.S, app("arr_"+b.S, b.X), ln, mx, app("bk_"+b.S, b.X))}
 	}
 	// generic sequences / arrays: fresh result defined over the result index
 	var es string
@@ -541,6 +559,16 @@ func (fx *Fx) evalSlice(st *State, x *ast.SliceExpr, spec bool) Val {
 		srcArr = app("arr_"+b.S, b.X)
 	}
 	st.assume(app("=", app("len_"+ss, r), app("-", hi, lo)))
+	if !isArr {
+		capT := app("-", app("cap_"+b.S, b.X), lo)
+		if x.Max != nil {
+			capT = app("-", fx.eval(st, x.Max, spec).X, lo)
+		}
+		st.assume(app("=", app("cap_"+ss, r), capT))
+		st.assume(app("=", app("bk_"+ss, r), app("bk_"+b.S, b.X)))
+	} else {
+		st.assume(app("=", app("cap_"+ss, r), app("-", ln, lo)))
+	}
 	st.assume(fmt.Sprintf("(forall ((i Int)) (! (=> (and (<= 0 i) (< i (- %s %s))) (= (select (arr_%s %s) i) (select %s (+ %s i)))) :pattern ((select (arr_%s %s) i))))", hi, lo, ss, r, srcArr, lo, ss, r))
 	return Val{T: rt, S: ss, X: r}
 }
@@ -779,7 +807,7 @@ func (fx *Fx) evalComposite(st *State, x *ast.CompositeLit, spec bool) Val {
 		for i, el := range x.Elts {
 			arr = app("store", arr, fmt.Sprint(i), fx.eval(st, el, spec).X)
 		}
-		return Val{T: t, S: ss, X: app("mk_"+ss, arr, fmt.Sprint(len(x.Elts)))}
+		return Val{T: t, S: ss, X: app("mk_"+ss, arr, fmt.Sprint(len(x.Elts)), fmt.Sprint(len(x.Elts)), fx.alloc(st, "backing"))}
 	case *types.Map:
 		if len(x.Elts) != 0 {
 			panic(unsupported("non-empty map literal"))
